@@ -123,11 +123,16 @@ class Gen:
     def bool_expr(self, scope, depth=2, subq=False):
         r = self.r
         alias, table = r.choice(scope)
-        kinds = ['cmp', 'cmp', 'cmp', 'and', 'or', 'not', 'in', 'between', 'like', 'isnull', 'isnotnull', 'paren', 'txtcmp', 'notin', 'notlike', 'ne']
+        kinds = ['cmp', 'cmp', 'colconst', 'colconst', 'and', 'or', 'not', 'in', 'between', 'like', 'isnull', 'isnotnull', 'paren', 'txtcmp', 'notin', 'notlike', 'ne']
         if subq:
             kinds += ['insub', 'notinsub', 'exists', 'notexists', 'scalar']
-        k = r.choice(kinds) if depth > 0 else r.choice(['cmp', 'isnull', 'in', 'txtcmp'])
+        k = r.choice(kinds) if depth > 0 else r.choice(['cmp', 'colconst', 'isnull', 'in', 'txtcmp'])
         self.features.add('bool:' + k)
+        if k == 'colconst':
+            # the shape planners push down: one column against one constant, written either way round
+            op = r.choice(['=', '<', '<=', '>', '>=', '!='])
+            c_, v_ = self.num_col(alias, table), r.choice([0, 1, 2, 3, -1])
+            return f'{c_} {op} {v_}' if r.random() < 0.5 else f'{v_} {op} {c_}'
         if k == 'cmp':
             return f'{self.num_expr(scope, depth - 1)} {r.choice(["=", "<", "<=", ">", ">="])} {self.num_expr(scope, depth - 1)}'
         if k == 'ne':
